@@ -119,6 +119,7 @@ func (vc *VC) Run() {
 	// allocation counter
 	na := vc.nextArr(st)
 	vc.assume(Le(IntK(1<<20), na))
+	vc.assume(Le(Zero, vc.heap(st, "$Fuel", SInt)))
 	// parameters
 	bindParam := func(n *ast.Ident, t types.Type) {
 		o, _ := vc.info.Defs[n].(*types.Var)
